@@ -149,6 +149,7 @@ type Case struct {
 	KeepWd  bool          // do not (re)create sources; re-run in place
 	RunNo   int           // run number inside the same root (separate meta files)
 	WdRel   string        // working directory relative to Root (default "wd")
+	KillWhenExists []string // SIGKILL the process group as soon as one of these absolute paths exists
 	KillAtTraceLine int   // > 0: SIGKILL the process group as soon as the command trace has this many lines (a logical instant)
 }
 
@@ -295,6 +296,24 @@ func (c *Case) Run() *Result {
 	go func() { done <- cmd.Wait() }()
 	stopWatch := make(chan struct{})
 	defer close(stopWatch)
+	if len(c.KillWhenExists) > 0 {
+		go func() {
+			for {
+				select {
+				case <-stopWatch:
+					return
+				default:
+				}
+				for _, p := range c.KillWhenExists {
+					if _, err := os.Lstat(p); err == nil {
+						syscall.Kill(-pgid, syscall.SIGKILL)
+						return
+					}
+				}
+				time.Sleep(100 * time.Microsecond)
+			}
+		}()
+	}
 	if c.KillAtTraceLine > 0 {
 		go func() {
 			for {
@@ -617,13 +636,29 @@ type Snapshot map[string]FileInfo
 // Snap walks root. log/ is skipped.
 func Snap(root string) Snapshot {
 	s := Snapshot{}
+	snapInto(s, root, "")
+	return s
+}
+
+func snapInto(s Snapshot, root, prefix string) {
 	filepath.Walk(root, func(p string, fi os.FileInfo, err error) error {
 		if err != nil || p == root {
 			return nil
 		}
 		rel, _ := filepath.Rel(root, p)
+		rel = filepath.Join(prefix, rel)
 		if rel == "log" {
 			return filepath.SkipDir
+		}
+		if fi.Mode()&os.ModeSymlink != 0 {
+			// a symlink to a directory (e.g. an output area on another file system) is followed
+			if tfi, e := os.Stat(p); e == nil && tfi.IsDir() {
+				if target, e := filepath.EvalSymlinks(p); e == nil {
+					s[rel] = FileInfo{Mode: "d"}
+					snapInto(s, target, rel)
+					return nil
+				}
+			}
 		}
 		st, _ := fi.Sys().(*syscall.Stat_t)
 		e := FileInfo{Size: fi.Size(), Mtime: fi.ModTime().UnixNano()}
@@ -649,7 +684,6 @@ func Snap(root string) Snapshot {
 		s[rel] = e
 		return nil
 	})
-	return s
 }
 
 // Files returns the sorted regular-file paths.
